@@ -51,6 +51,9 @@ CHECKS = {
  "C09": ("exploration", "three-way agreement monitor: random $verif kernel-contract programs (get/put/del/scan/event/resource use/nested calls/contract transfers/failures) over growing prior states on a gas-charging chain: pre-execution (no trace) -> signed transaction -> VerifyTx -> DoTx -> state delta == write set and declared outputs -> block replay; tamper oracle over schema-walk mutants of read set / write set / requests / fee / token outputs, re-signed",
          "Runtime oracle over ~1500 programs and ~700 tampered variants per quick run; held on what was explored; one nested-call rollback finding is recorded.",
          "Trusted: Node.PreExec mirrors Chain.PreExec call by call; kernel contracts stand in for wasm/native/EVM contracts (same sandbox, bridge, verification and commit paths).", "DESIGN.md §3 C09"),
+ "C20": ("exploration", "codec: round trips over all message types x option subsets x payload classes (in process and after the wire), exhaustive single-bit flips and bursts <= 32 bits on payloads <= 2 kB, sampled on large ones, request->response type map; dispatcher: sequential model check + concurrent Register / UnRegister / Dispatch rounds in child processes under the race detector with an offline exactly-once / at-most-once / never checker over unique message ids",
+         "Exhaustive for single-bit flips and bursts on small payloads, sampled elsewhere; concurrent interleavings are those the scheduler produced.",
+         "Trusted: CRC32 / snappy libraries; the subscription-table model; race reports count only when both frames lie in dispatcher.go / subscriber.go.", "DESIGN.md §3 C20"),
 }
 NOT_YET = "check not built yet in this session (work in progress; see DESIGN.md for the planned monitor)"
 ALL = ["C%02d" % i for i in range(1, 21)]
